@@ -61,8 +61,11 @@ CONSTANTS Mode,               \* "pure" | "pipeline"
           Prefixes,           \* DatasetPrefix values ("" = unset)
           RuleSets,           \* sets of targets (besides __default__) a rules file lists
           DefaultKinds,       \* "det": __default__ reads no field; "dyn": it reads k_default
-          Encs,               \* encodings of the batch body
+          DetRuleSets,        \* the rule sets combined with DefaultKinds "det" (all of them with "dyn")
+          Encs,               \* pipeline: how the spans are sent ("json", "msgpack": /1/batch; "event": /1/events)
+          Auths,              \* pipeline: "ok": the environment lookup answers; "fail": it fails (401, 5xx)
           WithReload,         \* pipeline: rules reloads are explored
+          Faithful,           \* TRUE: the known deviations of the code are in the graph
           UpperHexIsClassic   \* the open reading
 
 VARIABLES cfg,    \* [prefix, rules, dflt]: DatasetPrefix, targets in the rules file, kind of __default__
@@ -173,8 +176,8 @@ RuleSetsSome == {{}, {"prod"}, {"web"}, {"cls.prod"}, {"cls.web"}, {"prod", "cls
                  {"prod", "web", "cls.prod", "cls.web"}}
 RuleSetsQuick == {{}, {"prod", "cls.web"}, {"web", "cls.prod"}, {"prod", "web", "cls.prod", "cls.web"}}
 
-Configs == [prefix : Prefixes, rules : RuleSets, dflt : DefaultKinds]
-NoReq == [key |-> EmptyKey, env |-> "", ds |-> "", enc |-> ""]
+Configs == {c \in [prefix : Prefixes, rules : RuleSets, dflt : DefaultKinds] : c.dflt = "dyn" \/ c.rules \in DetRuleSets}
+NoReq == [key |-> EmptyKey, env |-> "", ds |-> "", enc |-> "", auth |-> ""]
 NoOut == [selector |-> "", lookup |-> "", kind |-> "", fieldsSet |-> {}, legacy |-> FALSE]
 NoIng == [needSet |-> {}, availSet |-> {}, spans |-> 0]
 NoRes == [reason |-> "", keySet |-> {}, spans |-> 0]
@@ -182,7 +185,7 @@ NoRes == [reason |-> "", keySet |-> {}, spans |-> 0]
 ---------------------------------------------------------------------------
 (* Mode "pure" *)
 
-PureRequests == [key : Shapes, env : Names, ds : Names, enc : {""}]
+PureRequests == [key : Shapes, env : Names, ds : Names, enc : {""}, auth : {""}]
 
 InitPure == /\ cfg \in Configs
             /\ cur \in PureRequests
@@ -205,7 +208,11 @@ Eval == /\ Mode = "pure"
 ---------------------------------------------------------------------------
 (* Mode "pipeline" *)
 
-PipeRequests == [key : Shapes, env : Names, ds : Names, enc : Encs]
+\* route.go getEnvironmentName: no lookup for a blank or a classic key
+LookupDone(k) == k.len # 0 /\ ~IsClassic(k)
+
+\* a failing lookup only where a lookup is made
+PipeRequests == {r \in [key : Shapes, env : Names, ds : Names, enc : Encs, auth : Auths] : r.auth = "fail" => LookupDone(r.key)}
 
 InitPipe == /\ cfg \in Configs
             /\ cur = NoReq
@@ -216,9 +223,14 @@ InitPipe == /\ cfg \in Configs
 
 SpansOf(enc) == IF enc = "event" THEN 1 ELSE 2
 
-\* route.go getEnvironmentName: no lookup for a blank or a classic key, the
-\* environment name is then empty
-EnvSeen(r) == IF r.key.len = 0 \/ IsClassic(r.key) THEN "" ELSE r.env
+\* the environment name the router works with: empty without lookup (and
+\* after a failed one, should the request be processed nevertheless)
+EnvSeen(r) == IF LookupDone(r.key) /\ r.auth = "ok" THEN r.env ELSE ""
+
+\* After a decision the next request is explored in one encoding only (what
+\* the previous decision left behind does not depend on the next encoding);
+\* from the idle state (start, after a reload) in all of them.
+Explored(r) == phase = "idle" \/ (phase = "done" /\ r.enc = "msgpack" /\ r.auth = "ok")
 
 \* POST /1/batch/<ds> with the key: two spans (a child, then the root), each
 \* carrying every field any sampler reads (enc "json", "msgpack"); or POST
@@ -228,11 +240,40 @@ EnvSeen(r) == IF r.key.len = 0 \/ IsClassic(r.key) THEN "" ELSE r.env
 \* harness answers which of those every span has extracted.
 Ingest(r) ==
   /\ Mode = "pipeline"
-  /\ phase \in {"idle", "done"}
+  /\ Explored(r)
+  /\ r.auth = "ok"
   /\ LET sel  == Selector(r.key, EnvSeen(r), r.ds, cfg.prefix)
          need == Def(Lookup(sel, cfg.rules), cfg.dflt).ing
      IN /\ out' = [needSet |-> need, availSet |-> need, spans |-> SpansOf(r.enc)]
-        /\ act' = [name |-> "Ingest", key |-> r.key, env |-> r.env, ds |-> r.ds, enc |-> r.enc, need |-> need]
+        /\ act' = [name |-> "Ingest", key |-> r.key, env |-> r.env, ds |-> r.ds, enc |-> r.enc, auth |-> r.auth, need |-> need]
+  /\ cur' = r
+  /\ phase' = "pending"
+  /\ res' = NoRes
+  /\ UNCHANGED cfg
+
+\* The environment lookup fails: the environment of the key is not known, the
+\* request is refused and nothing of it reaches the collector.
+IngestRefused(r) ==
+  /\ Mode = "pipeline"
+  /\ Explored(r)
+  /\ r.auth = "fail"
+  /\ UNCHANGED <<cfg, phase, cur, out, res>>
+  /\ act' = [name |-> "Ingest", key |-> r.key, env |-> r.env, ds |-> r.ds, enc |-> r.enc, auth |-> r.auth,
+             need |-> Def(Default, cfg.dflt).ing]
+
+\* KNOWN DEVIATION lookup-failed-sampled-by-default (route.go batch: no return
+\* after the error answer; the finding and its repair are C23's): the spans are
+\* processed with an empty environment name, so the trace of an environment key
+\* is decided by __default__ instead of its environment's sampler.
+IngestDespiteFailedLookup(r) ==
+  /\ Faithful
+  /\ Mode = "pipeline"
+  /\ Explored(r)
+  /\ r.auth = "fail"
+  /\ LET need == Def(Default, cfg.dflt).ing
+     IN /\ out' = [needSet |-> need, availSet |-> need, spans |-> SpansOf(r.enc)]
+        /\ act' = [name |-> "Ingest", key |-> r.key, env |-> r.env, ds |-> r.ds, enc |-> r.enc, auth |-> r.auth, need |-> need,
+                   dev |-> "lookup-failed-sampled-by-default"]
   /\ cur' = r
   /\ phase' = "pending"
   /\ res' = NoRes
@@ -259,6 +300,7 @@ Reload(rs) ==
   /\ WithReload
   /\ phase \in {"idle", "done"}
   /\ rs # cfg.rules
+  /\ [cfg EXCEPT !.rules = rs] \in Configs
   /\ cfg' = [cfg EXCEPT !.rules = rs]
   /\ phase' = "idle"
   /\ res' = NoRes
@@ -268,7 +310,7 @@ Reload(rs) ==
 ---------------------------------------------------------------------------
 Init == IF Mode = "pure" THEN InitPure ELSE InitPipe
 Next == \/ Eval
-        \/ \E r \in PipeRequests : Ingest(r)
+        \/ \E r \in PipeRequests : Ingest(r) \/ IngestRefused(r) \/ IngestDespiteFailedLookup(r)
         \/ Decide
         \/ \E rs \in RuleSets : Reload(rs)
 Spec == Init /\ [][Next]_vars
@@ -356,6 +398,24 @@ DecisionFollowsRules ==
            /\ res'.keySet = Def(t, cfg.dflt).key
            /\ res'.spans = out.spans
            /\ Def(t, cfg.dflt).ing \subseteq out.availSet]_vars
+
+\* the same, leaving out the traces that entered through the known deviation
+\* (used where the graph contains it: Faithful = TRUE)
+DecisionFollowsRulesExceptKnown ==
+  [][(act'.name = "Decide" /\ cur.auth # "fail") =>
+        LET dest == IF IsClassic(cur.key)
+                    THEN (IF cfg.prefix = "" THEN cur.ds ELSE cfg.prefix \o "." \o cur.ds)
+                    ELSE (IF cur.key.len = 0 THEN "" ELSE cur.env)
+            t    == IF dest \in cfg.rules THEN dest ELSE Default
+        IN /\ res'.reason = Def(t, cfg.dflt).reason
+           /\ res'.keySet = Def(t, cfg.dflt).key
+           /\ res'.spans = out.spans
+           /\ Def(t, cfg.dflt).ing \subseteq out.availSet]_vars
+
+\* a trace whose environment could not be determined is not taken in (holds
+\* of the ideal specification, Faithful = FALSE)
+NoUnknownEnvironmentIngested ==
+  (Mode = "pipeline" /\ phase = "pending") => cur.auth # "fail"
 
 ---------------------------------------------------------------------------
 Abs == IF Mode = "pure"
